@@ -65,3 +65,25 @@ Example C03_left_join_example :
   join_rows JLeft (Some (ECmp Compare.OpEq (ECol 0) (ECol 1))) 1 1 [[VInt 1]; [VInt 2]] [[VInt 2]; [VInt 2]]
   = Ok [[VInt 1; VNull]; [VInt 2; VInt 2]; [VInt 2; VInt 2]].
 Proof. vm_compute. reflexivity. Qed.
+
+(* ---- USING / NATURAL joins ------------------------------------------------------------------------------ *)
+(* src_using (Model/Using.v) states the documented meaning inside the model: the join on the equality of the
+   named columns, then, row by row and in the join's order, one merged column per name (the left operand's
+   value - the right operand's for RIGHT joins - or the other side's where that is NULL) followed by all
+   other columns of both operands.  Number and order of the rows are those of the join, to which the
+   join theorems above apply. *)
+Require Import Csvq.Model.Using Csvq.Proofs.Using.
+Theorem C03_using_join_merges_the_named_columns_once : forall strict k l r pairs rows,
+  let nl := src_width l in let nr := src_width r in
+  pairs_ok nl nr pairs ->
+  eval_source strict (SrcJoin k l r (using_cond nl pairs)) = Ok rows ->
+  Forall (fun row => length row = (nl + nr)%nat) rows ->
+  eval_source strict (src_using k l r pairs) = Ok (map (merge_row k nl nr pairs) rows).
+Proof. exact using_join_spec. Qed.
+Print Assumptions C03_using_join_merges_the_named_columns_once.
+
+Example C03_using_example :
+  eval_source false (src_using JLeft (SrcTable 2 [[VInt 1; VInt 10]; [VNull; VInt 20]])
+                                     (SrcTable 2 [[VInt 1; VInt 7]]) [(0, 0)%nat])
+  = Ok [[VInt 1; VInt 10; VInt 7]; [VNull; VInt 20; VNull]].
+Proof. vm_compute. reflexivity. Qed.
